@@ -313,6 +313,34 @@ def c02_reference_encode(x=0, s=""):
     return {"violates": [_obs(b) for b in back] != [_obs(r)], "read": repr(back)[:300]}
 
 
+def c02_registry_keeps():
+    from flow.record import RecordDescriptor
+    from flow.record.packer import RecordPacker
+
+    D = RecordDescriptor("c02/rec", [("varint", "n"), ("string", "s")])
+    N = RecordDescriptor("c02/new", [("varint", "n")])
+    p = RecordPacker()
+    old = [(f"c02/t{i:04d}", i) for i in range(3000)] + [f"c02/t{i:04d}" for i in range(3000)]
+    for k in old:
+        p.descriptors[k] = D
+    p.register(N)
+    missing = [k for k in old if k not in p.descriptors]
+    bad = bool(missing) or N.identifier not in p.descriptors
+    return {"violates": bad, "detail": f"after register() {len(missing)} of 6000 earlier registry entries are gone (e.g. {missing[:2]})" if bad else None}
+
+
+def c02_bare_name_latest():
+    D1, D2 = ("c02/evolve", (("varint", "n"),)), ("c02/evolve", (("varint", "n"), ("string", "s")))
+    gen = ("ts", 2020, 1, 2, 3, 4, 5, 6)
+    data = R.encode_stream([("DESC",) + D1, ("REC", "c02/evolve", None, [1, None, None, gen, 1]), ("DESC",) + D2, ("REC", "c02/evolve", None, [7, "seven", None, None, gen, 1])])
+    try:
+        back = _read(data)
+    except Exception as e:
+        return {"violates": True, "detail": f"{type(e).__name__}: {e}"}
+    ok = len(back) == 2 and back[0].n == 1 and getattr(back[1], "s", None) == "seven" and back[1].n == 7
+    return {"violates": not ok, "detail": None if ok else f"read back {back!r}"}
+
+
 def c02_refused_then_written():
     from flow.record import RecordDescriptor
     from flow.record.stream import RecordStreamWriter
@@ -362,4 +390,4 @@ def c02_compat(extra=1, bare=False, grouped=False):
     return {"violates": not ok, "read": repr(back), "version": repr(getattr(back[0], "_version", None)) if back else None}
 
 
-CALLS = {"c02_refused_then_written": c02_refused_then_written, "c02_history_sweep": c02_history_sweep, "c02_golden": c02_golden, "c02_make_golden": c02_make_golden, "c02_reference_sweep": c02_reference_sweep, "c02_reference_decode": c02_reference_decode, "c02_reference_encode": c02_reference_encode, "c02_compat": c02_compat}
+CALLS = {"c02_registry_keeps": c02_registry_keeps, "c02_bare_name_latest": c02_bare_name_latest, "c02_refused_then_written": c02_refused_then_written, "c02_history_sweep": c02_history_sweep, "c02_golden": c02_golden, "c02_make_golden": c02_make_golden, "c02_reference_sweep": c02_reference_sweep, "c02_reference_decode": c02_reference_decode, "c02_reference_encode": c02_reference_encode, "c02_compat": c02_compat}
